@@ -52,7 +52,7 @@ CONSTANTS NT,           \* number of threads of the process
           Calls(_),     \* thread -> set of calls [op, key, arg]
           MaxOps,       \* bound on the number of calls of a thread
           MinDie,       \* a call that does not succeed is only made after this many calls
-          Ending,         \* "any" | "free" | "die": how the behaviours end (shapes -simulate walks)
+          Ending,       \* "any" | "free" | "die": how the behaviours end (shapes -simulate walks)
           ProcAtStart,  \* TRUE: ovni_proc_init / _fini are made by the driver around the threads
           Variant       \* "faithful" | "neg_scalar_mid" | "neg_keep_subtree" | "neg_get_type" | "neg_lazy_flush"
 
@@ -239,8 +239,12 @@ Terminal == Halted \/ \A th \in Threads : Done(th)
 \* then a call of that class, each drawn uniformly; three candidates are drawn
 \* per class and the enabled ones kept (all calls are scanned only when no
 \* candidate is enabled)
-Class(c) == IF c.op \in Getters THEN "get" ELSE IF c.op \in {"set_double", "set_boolean", "set_str"} THEN "set" ELSE c.op
-Classes == {"proc_init", "thread_init", "fini", "free", "flush", "require", "has", "get", "get_json", "set", "set_json"}
+Class(c) == IF c.op \in Getters THEN "get"
+            ELSE IF c.op \in Setters /\ c.arg[<<>>][1] = "bad" THEN "bad"
+            ELSE IF c.op \in Setters /\ c.arg[<<>>][2] = "nan" THEN "nan"
+            ELSE IF c.op \in {"set_double", "set_boolean", "set_str"} THEN "set" ELSE c.op
+Classes == {"proc_init", "thread_init", "fini", "free", "flush", "require", "has", "get", "get_json", "set", "set_json",
+            "bad", "nan"}
 ByClass == [th \in Threads |-> [k \in Classes |-> {c \in Calls(th) : Class(c) = k}]]
 Draw(th) == UNION {{RandomElement(ByClass[th][k]) : i \in 1..3} : k \in {x \in Classes : ByClass[th][x] # {}}}
 Enabled(th) == {c \in Calls(th) : En(th, c)}
@@ -482,8 +486,8 @@ CallsCoverF(th) == Life \cup {TInit(th), Require("nosv")}
                    \cup ReadCalls(KCoverF \cup {<<"ovni", "require", "nosv">>}, {"has", "get_str", "get_json"})
                    \cup SetCalls(KCoverF, {Str("y")}) \cup SetCalls({<<"a">>, <<"ovni">>}, {Num("3")})
                    \cup JsonCalls({<<"a">>}, {JEmpty})
-KCoverD == KCoverA \cup {<<"a", "a">>, <<"b", "b">>}
-CallsCoverD(th) == Life \cup {TInit(th)}
+KCoverD == KCoverA \cup {<<"a", "a">>}
+CallsCoverD(th) == LifeNoFlush \cup {TInit(th)}
                    \cup ReadCalls(KCoverD \cup {<<"ovni">>}, AllReads)
                    \cup SetCalls(KCoverD, {Num("0.5"), Str("x")}) \cup SetCalls({<<"a">>, <<"ovni">>}, {Bool(FALSE)})
                    \cup JsonCalls({<<"a">>, <<"b", "a">>}, {JObjB}) \cup JsonCalls({<<"a">>}, {JEmpty, JBad})
